@@ -48,6 +48,17 @@ theorem C10_gen_removal_tolerant :
     ∀ r ∈ Pyro.Gen.C10.removals, r.2 ≠ [] ∧ ∀ k ∈ r.2, k = "pop-default" := by
   decide
 
+/-- **C10_gen_environment.**  Two assumptions of the model about its environment, as far as they are
+    visible in the source: (1) a new stream's id is `str(uuid.uuid4())` — fresh, and independent of
+    anything the client sends (the model's counter); (2) housekeeping passes do occur on a running
+    server, also a busy one: the multiplex server runs one after every batch of events and when
+    idle, the thread-pool server has its Housekeeper thread (the model's `housekeeping` operation is
+    an event the environment keeps supplying). -/
+theorem C10_gen_environment :
+    Pyro.Gen.C10.streamIdExpr = "str(uuid.uuid4())" ∧ Pyro.Gen.C10.muxEventsHousekeeps = true ∧
+    Pyro.Gen.C10.muxIdleHousekeeps = true ∧ Pyro.Gen.C10.threadHousekeeperRuns = true := by
+  decide
+
 /-- **C10_gen_housekeeping_locked.**  Every access of the stream table in `_housekeeping` is inside
     `with self.housekeeper_lock:` (premise of `C10_housekeeping_serial`). -/
 theorem C10_gen_housekeeping_locked :
